@@ -34,6 +34,11 @@ STRENGTHENED = {
     "C18e": "MISSED by the first run (OSC selector that is numerically 0/1/2 but not the literal digit): the table family and idiom 74 got zero-padded / signed / spaced selectors",
     "C03e": "caught by the cost oracle (ICH 65535 takes 1.8 s); the oracle now stops a file after three measured stalls so that the check itself finishes in minutes",
     "C04e": "2 disagreements: flush() on a scrolled-back view is exercised by the W operation (twin parser) only when a scrolled view precedes it",
+    "C09g": "MISSED by the first run (semicolon-form extended colour whose argument carries a colon sub-parameter, e.g. 38;5;1:2): the SGR list and the table family got mixed ;/: forms",
+    "C04g": "the worker's patch predates fix 5a439e4 (Parser::process); its parser.rs hunk was re-applied by hand on the fixed code (as for C04c, C04d, C04f), suite and demonstration re-confirmed",
+    "C05g": "1 disagreement at first: a third of the opx pre-states now carry a non-default pen",
+    "C07g": "1 disagreement: opx got rows that are wrapped AND end in a wide character (cursor classes on its first half)",
+    "C12g": "1 disagreement at first: the resize family got 'region anchored at the top, shrink to its height, scroll, look at the history'",
     "C18b": "caught by the oracle's token table only: added idiom 83 (ESC with intermediates and every kind of final byte)",
 }
 res = {}
@@ -51,7 +56,7 @@ out.append("## 12. Seeded changes: which check catches which change\n")
 out.append("Each row is one change written by an independent worker who saw only the property text and a scratch\n"
            "worktree (never `/verif`); each compiles, passes the unedited 67-test suite + doctest, and breaks the property\n"
            "on a concrete input (the worker's demonstration test, re-run by us with and without the change). The\n"
-           "changes live in `seeded/<id>/` (`patch.diff`, `seeded_demo.rs`, `meta.json`; suffix b = second round, c/d/e/f = third to sixth round, whose workers were told what the earlier changes were and asked for a different function and mechanism; the fourth round was also asked for changes that alter behaviour on as few inputs as possible) and are never committed to `/repo`.\n"
+           "changes live in `seeded/<id>/` (`patch.diff`, `seeded_demo.rs`, `meta.json`; suffix b = second round, c/d/e/f = third to sixth round, g = seventh round (refactoring-style rewrites of whole functions, 10-60 lines, behaviour-identical except in one corner), whose workers were told what the earlier changes were and asked for a different function and mechanism; the fourth round was also asked for changes that alter behaviour on as few inputs as possible) and are never committed to `/repo`.\n"
            "`tools/run_seeded.sh` applies one, runs `./check <property> --tier quick` (seed 1), undoes it. Columns:\n"
            "*dis* = cases where model and implementation differ, *orc* = cases where the implementation-level oracle\n"
            "fails; *mechanism* = what the first reported replay rests on (`correspondence+oracle(k)`: the states/bytes\n"
